@@ -597,12 +597,7 @@ theorem commitWrite_refstep (H : HashFn) (w : World) (l : Loaded) (hl : load H w
   · simp only [hx, if_false]
     have hhead : (putObj (putObjs w (TreeBuild.writeTree H l.idx).writes.reverse) id (Obj.encode .commit data)).head = w.head := by
       simp [putObj_head', putObjs_head']
-    have hnn : ¬ ((appendLogBranch (appendLogHead
-        { putObj (putObjs w (TreeBuild.writeTree H l.idx).writes.reverse) id (Obj.encode .commit data) with
-          heads := aset (putObj (putObjs w (TreeBuild.writeTree H l.idx).writes.reverse) id (Obj.encode .commit data)).heads l.ref (hashStr id) }
-        (recLine l .commit (if Refs.exists_ l.refs l.ref = true then l.headCommit.map (·.1) else none) (some id) (clock ts 1) tz msg)) l.ref
-        (recLine l .commit (if Refs.exists_ l.refs l.ref = true then l.headCommit.map (·.1) else none) (some id) (clock ts 1) tz msg)).head.isNone = true) := by
-      simp [appendLogBranch, appendLogHead, hhead, hh1]
+    have hnn : ¬ (w.head.isNone = true) := by simp [hh1]
     simp only [hnn, if_false]
     refine RefStep.setBranch l.ref id ?_ (hr ▸ hh2) ?_ (Or.inl (load_ref H w l hl)) ?_ ?_
     · simpa [setHead, appendLogBranch, appendLogHead] using hol
